@@ -261,14 +261,16 @@ def okTranslate (c : CDSIn) (trunc : Bool) (table : Nat) (strict : Bool) (ans : 
   | some cods => okTranslateCodons cods trunc table strict ans
   | none => ans.isNone
 
-/-- first / last codon predicates.  A CDS without a complete codon has no first or last codon: `false`
-    and a documented refusal are both accepted there. -/
+/-- start-codon predicates: "the first codon is a start codon of the table"; a CDS without a complete codon has no
+    such codon, so the answer is `false`. -/
 def okFirstCodon (c : CDSIn) (starts : List (List Char)) (ans : Option Bool) : Bool :=
   match c.codonLetters with
   | none => ans.isNone
-  | some [] => ans == some false || ans.isNone
+  | some [] => ans == some false
   | some (cod :: _) => ans == some (decide (cod ∈ starts))
 
+/-- last-codon predicate.  Without a complete codon there is no last codon: `false` and a documented refusal are
+    both accepted there. -/
 def okHasValidStop (c : CDSIn) (ans : Option Bool) : Bool :=
   match c.codonLetters with
   | none => ans.isNone
